@@ -102,6 +102,16 @@ class C03(Check):
             mod = {3: 1, 4: 9, 5: 64}[n]
             for geo in xm.GEO:
                 u += [{'n': n, 'geo': geo, 'mod': mod, 'r': r} for r in range(mod)]
+        # nearly collinear construction geometries (sin ~1e-9, 3e-10, 1e-5 at every anchor): the frame must still be
+        # orthonormal, so the distance clauses hold; only whole-molecule conformations are applied (a single-atom
+        # displacement of such a geometry is neither clearly bent nor exactly collinear)
+        self.bounds['nearly_collinear_construction_classes'] = list(xm.NEAR) + list(xm.BENT)
+        for n in range(3, nmax + 1):
+            mod = {3: 1, 4: 3, 5: 16}[n]
+            for geo in list(xm.NEAR) + list(xm.BENT):
+                u += [{'n': n, 'geo': geo, 'mod': mod, 'r': r} for r in range(mod)]
+        # two-atom references: the anchor of a mapped atom is the one the map REPORTS (equivalences)
+        u.append({'ref2': True, 'n': 2})
         # topology edited between two maps: a map is built and used, a bond is then ADDED to the same topology
         # object and a second map built - its frames must follow the new bond graph
         self.bounds['topology_edit'] = 'every graph with an anchor on 3..4 atoms x every absent edge; generic geometry'
@@ -110,6 +120,12 @@ class C03(Check):
 
     def cases(self, unit, tier, seed):
         n = unit['n']
+        if unit.get('ref2'):
+            for bonded in (1, 0):
+                for s in (0.5, 1.0, 2.0):
+                    for ti in range(3):
+                        yield {'ref2': 1, 'bonded': bonded, 's': s, 't': ti}
+            return
         if unit.get('edit'):
             for i, edges in enumerate(xm.ref_graphs(n)):
                 if i % unit['mod'] != unit['r']:
@@ -132,7 +148,56 @@ class C03(Check):
     # ------------------------------------------------------------------
     def check_case(self, case, R, seed):
         with owned_random(_script):
-            self._run(case, R, seed)
+            if case.get('ref2'):
+                self._ref2(case, R, seed)
+            else:
+                self._run(case, R, seed)
+
+    def _ref2(self, case, R, seed):
+        """Two-atom reference under non-rigid deformation (the bond is stretched): each mapped atom stays at s times
+        its construction-time distance from the reference atom the map reports as its anchor."""
+        from gaddlemaps import ExchangeMap
+        s = case['s']
+        G = xm.direction_table(seed)
+        rpos = generic_points(2, seed, tag=102)
+        v = rpos[1] - rpos[0]
+        ln = np.linalg.norm(v)
+        tpos = np.array([rpos[0] + 0.3 * ln * G[0], rpos[1] + 0.25 * ln * G[1], rpos[0] + 0.8 * v + 0.2 * ln * G[2],
+                         rpos[1] + 0.6 * v + 0.1 * ln * G[3]])
+        ref = xm.ref_molecule(2, [(0, 1)] if case['bonded'] else [])
+        ref.atoms_positions = rpos.copy()
+        tgt = xm.tgt_molecule(len(tpos))
+        tgt.atoms_positions = tpos.copy()
+        try:
+            emap = ExchangeMap(ref, tgt, s)
+            anchor_of = {int(t): int(a) for a, ts in emap.equivalences.items() for t in ts}
+        except Exception as ex:
+            R.violation('ref2/build/exception', case, repr(ex))
+            return
+        if sorted(anchor_of) != list(range(len(tpos))) or not set(anchor_of.values()) <= {0, 1}:
+            R.violation('ref2/equivalences-do-not-cover-the-target', case, str(anchor_of))
+            return
+        want = {t: s * float(np.linalg.norm(tpos[t] - rpos[a])) for t, a in anchor_of.items()}
+        moved = ref.copy()
+        confs = [rpos, rpos + np.array([1.0, -2.0, 0.5]),
+                 np.array([rpos[0], rpos[0] + 1.7 * v]),                      # bond stretched
+                 np.array([rpos[0] + 0.3, rpos[1] + np.array([0.2, -0.1, 0.4])]),
+                 generic_points(2, seed, tag=302) * 2.0 - 1.0][case['t']::3]
+        for ci, conf in enumerate(confs):
+            d = dict(case, conf=ci)
+            moved.atoms_positions = conf
+            try:
+                out = emap(moved).atoms_positions
+            except Exception as ex:
+                R.violation('ref2/call/exception', d, repr(ex))
+                continue
+            R.case(d, nontrivial=True, cls='ref2/bonded%d' % case['bonded'], outcome='two-atom-reference')
+            for t, a in anchor_of.items():
+                got = float(np.linalg.norm(out[t] - conf[a]))
+                if not np.isfinite(got) or abs(got - want[t]) > TOL:
+                    R.violation('ref2/distance-to-reported-anchor', d,
+                                f'atom {t}, anchor {a} (as reported by equivalences): {got!r} vs s*d0 = {want[t]!r}')
+                    break
 
     def _run(self, case, R, seed):
         from gaddlemaps import ExchangeMap
@@ -218,13 +283,26 @@ class C03(Check):
             sig = f'built-{geo}/applied-{CONF_CLASS.get(base, geo)}'
             bdesc = dict(case, base=base)
             want_j = case.get('j', None)
+            via_ref = None
+            if base == 'genA' and 'add' not in case:
+                # the conformation is first given through the CONSTRUCTION object itself, changed in place (the call
+                # before this one mapped another conformation), then through a copy: same result
+                ref.atoms_positions = bpos
+                try:
+                    via_ref = emap(ref).atoms_positions
+                except Exception as ex:
+                    R.violation(f'exception/{sig}', dict(bdesc, j=-1), repr(ex))
             out0 = apply(bpos, dict(bdesc, j=-1), f'{cls0}/{base}', sig, keep=True)
+            if out0 is not None and base == 'genA' and 'add' not in case:
+                if via_ref is not None and not np.array_equal(via_ref, out0):
+                    R.violation(f'construction-object-in-place-differs-from-a-copy/{sig}', dict(bdesc, j=-1),
+                                f'max difference {float(np.abs(via_ref - out0).max()):.3e}')
             if out0 is None:
                 continue
             if want_j in (None, -1):
                 R.case(dict(bdesc, j=-1), nontrivial=base != 'construct', outcome='whole-conformation',
                        cls=f'{cls0}/{base}')
-            if want_j == -1:
+            if want_j == -1 or geo in xm.NEAR or geo in xm.BENT:
                 continue
             for j in ([want_j] if want_j is not None else range(n)):
                 for dk in ([case['dk']] if 'dk' in case else DKS):
